@@ -3,6 +3,6 @@ NEXT Next
 INVARIANT EmitCase
 CHECK_DEADLOCK FALSE
 CONSTANTS
-  AllModeLen = 4
+  AllModeLen = 3
   L = 5
-  Schedules = {"each", "glue_next", "glue_both", "glue_next2", "glue_prev"}
+  Schedules = {"each", "glue_next", "glue_both", "glue_next2"}
